@@ -51,7 +51,7 @@ static int run(const std::string &ob, const Args &a)
     std::vector<unsigned> p, j; vec_basic x;
     int bad = 0;
     if (ob.find("from_coo") != std::string::npos || ob.find("CSRMatrix.ctor") != std::string::npos) {
-        unsigned nnz = (unsigned)geti(a, "nnz", 0); std::vector<unsigned> ci, cj; vec_basic cx; Dense D(NR, std::vector<RCP<const Basic>>(NC, zero));
+        unsigned nnz = (unsigned)geti(a, "ci.n", geti(a, "nnz", 0)); std::vector<unsigned> ci, cj; vec_basic cx; Dense D(NR, std::vector<RCP<const Basic>>(NC, zero));
         for (unsigned k = 0; k < nnz; k++) {
             ci.push_back((unsigned)geti(a, "ci.d[" + std::to_string(k) + "]", 0)); cj.push_back((unsigned)geti(a, "cj.d[" + std::to_string(k) + "]", 0));
             cx.push_back(integer(geti(a, "cx.d[" + std::to_string(k) + "].b.v", 1)));
